@@ -504,7 +504,7 @@ func main() {
 }
 
 func classRank(cl string) int {
-	order := []string{"panic", "refresh-missing-provider", "refresh-stale-record", "wait-missing-provider", "wait-stale-record"}
+	order := []string{"panic", "refresh-missing-provider", "refresh-stale-record", "wait-missing-provider", "wait-during-miss-missing-provider", "wait-stale-record", "wait-during-miss-stale-record"}
 	for i, o := range order {
 		if o == cl {
 			return i
